@@ -102,11 +102,19 @@ impl Zone {
                 "@".to_string()
             } else {
                 let labels_to_keep = name.labels.len() - apex.labels.len();
-                DomainName {
+                let relative = DomainName {
                     labels: Vec::from(&name.labels[..labels_to_keep]),
                     len: name.len - apex.len,
                 }
-                .to_dotted_string()
+                .to_dotted_string();
+                // a relative name which is just "@" would be read back as
+                // the origin (escaping does not help, the tokeniser drops
+                // it), so it has to be written out in full.
+                if relative == "@" {
+                    name.to_dotted_string()
+                } else {
+                    relative
+                }
             }
         };
 
